@@ -319,11 +319,11 @@ func (g *zgen) generate(st *State) Item {
 	gn.Type = typ
 	// range
 	switch k := g.n(20, "rk"); {
-	case k == 0 && g.o.BigGenerate && typ != TA && typ != TAAAA:
+	case k == 19 && g.o.BigGenerate && typ != TA && typ != TAAAA:
 		gn.Start = int64(g.n(3, "bs"))
 		gn.Step = int64(g.n(3, "bst") + 1)
 		gn.Stop = gn.Start + 65535*gn.Step + int64(g.n(int(gn.Step), "slack"))
-	case k < 3:
+	case k >= 17:
 		gn.Start = int64(g.n(1000000, "s"))
 		gn.Step = int64(g.n(1000, "st") + 1)
 		gn.Stop = gn.Start + int64(g.n(int(gn.Step)*6, "len"))
